@@ -10,7 +10,7 @@ from __future__ import annotations
 import collections
 import os
 
-from harness import c01_analysis_py2v, c01_eager, c01_gen, c01_run, c01_tables_py2v, common
+from harness import c01_analysis_py2v, c01_closure, c01_eager, c01_gen, c01_run, c01_tables_py2v, common
 from harness.common import clist
 
 PROPERTY = "C01"
@@ -381,11 +381,12 @@ def mechanisms(d: Decorated):
         m["returns_input"] |= c01_run.returns_graph_input(proto)
         m["nested_domain"] |= c01_run.nested_domain_not_imported(proto)
         m["dup_subgraph_output"] |= c01_run.subgraph_lists_value_twice(proto)
-        m["for_bound"] |= c01_run.for_bound_not_live(d.source, fp["name"], c01_gen.analysis_globals(d.prog))
-        m["loop_live_out"] |= c01_run.loop_live_out_dropped(d.source, fp["name"], c01_gen.analysis_globals(d.prog))
+        msrc = getattr(d, "mech_source", d.source)      # enclosing-scope stream: the same functions defined at module level
+        m["for_bound"] |= c01_run.for_bound_not_live(msrc, fp["name"], c01_gen.analysis_globals(d.prog))
+        m["loop_live_out"] |= c01_run.loop_live_out_dropped(msrc, fp["name"], c01_gen.analysis_globals(d.prog))
         m["float_mod"] |= "float-mod-tensor" in fp.get("features", [])
         m["param_shadow_if"] |= (not c01_run.constant_if_excludes_parameters()
-                                 and c01_run.if_test_parameter_shadows_global(d.source, fp["name"], set(d.prog["globals"])))
+                                 and c01_run.if_test_parameter_shadows_global(msrc, fp["name"], set(d.prog["globals"])))
     return m
 
 
@@ -702,6 +703,66 @@ def nested_def_probe(ctx, wd, worker, stats):
                        "graph": np.asarray(val[0]).tolist() if status == "ok" else str(val)[:400]})
 
 
+# ----------------------------------------------------------------------------- enclosing-scope stream (harness/c01_closure.py)
+
+def closure_stream(ctx, wd, decorated, n_sets, worker, seeds, limit, stats):
+    """Programs of the main stream that refer to outer names, re-defined inside a function that binds those names while
+    the module binds them to other objects: four-way oracle + Script/Translate.v on the enclosing bindings = real function_ir."""
+    import random as _random
+    CD = c01_closure.make_decorated(Decorated)
+    picked = [d for d in decorated if c01_closure.eligible(d) and c01_closure.used_outer_names(d.prog)][:limit]
+    cl = []
+    for j, d in enumerate(picked):
+        src = c01_closure.to_source_closure(d.prog)
+        with c01_run.ConverterTrace() as tr:
+            mod, exc = c01_run.load(wd, f"c01_cl{j}", src)
+        d2 = CD(d.idx, d.prog, src, mod, exc, tr.events, d.source)
+        used = c01_closure.used_outer_names(d.prog)
+        ctx.case(("enclosing-scope", "helper" if any(h["name"] in used for h in d.prog["subs"]) else "constant",
+                  c01_gen.shape_key(d.prog).split("/")[0][:16]))
+        if j < 1:
+            ctx.sample({"stream": "enclosing-scope", "source": src})
+        stats["enclosing_scope_programs"] += 1
+        if exc is not None:
+            ctx.violation(f"C01:enclosing-scope:decorator-raises:{type(exc).__name__}",
+                          f"the program is accepted when defined at module level; defined inside a function that binds the outer names "
+                          f"{used} the decorator raises {exc!r:.200}", {"stream": "enclosing-scope", "source": src})
+            continue
+        cl.append(d2)
+    flagged = set()
+    for d2 in cl:
+        st2 = collections.Counter()
+        fl, _mech = direct_oracle(ctx, d2, st2, n_sets, _random.Random(seeds[d2.idx] ^ 0x5EED), worker, None)
+        stats["enclosing_scope_input_sets"] += st2["input_sets"]
+        if fl:
+            flagged.add(d2.idx)
+    # ---- model obligation
+    cases, meta = [], []
+    for d2 in cl:
+        for fp in d2.funcs:
+            try:
+                txt, _loops, acc = translate_case(d2, fp)
+            except TypeError:
+                continue
+            cases.append(txt)
+            meta.append((d2, fp, acc))
+    bad = _eval_tcases(ctx, cases, False, "c01_closure") if cases else []
+    broken = []
+    if bad:
+        lcases = [translate_case(meta[i][0], meta[i][1], legacy=True)[0] for i in bad]
+        lbad = set(_eval_tcases(ctx, lcases, True, "c01_closure_legacy"))
+        broken = [meta[i] for j, i in enumerate(bad) if j in lbad]
+    for d2, fp, acc in broken:
+        if d2.idx in flagged:
+            continue            # reported above with its failing input
+        ctx.tie_broken("correspondence", "translate:enclosing-scope:" + fp["name"],
+                       "Script/Translate.v on the enclosing function's bindings differs from the real function_ir of the nested script\n" + d2.source)
+    ctx.obligation(f"enclosing-scope: Script/Translate.v run on the bindings of the enclosing function (constants, truth of `if NAME:` tests) = "
+                   f"real function_ir of the script defined inside it, module-level decoys of the same names present, on {len(cases)} functions "
+                   f"of {len(cl)} programs", not broken)
+    stats["enclosing_scope_functions"] = len(cases)
+
+
 def run(ctx):
     ctx.assume("kernel semantics of the ONNX operators are abstract in the theorems (Section variable); measured on onnxruntime (ORT_DISABLE_ALL) "
                "by the direct oracle for every generated program and input")
@@ -786,6 +847,9 @@ def run(ctx):
             if d.idx < 2:
                 ctx.sample({"source": d.source})
         phases["direct_oracle_s"] = round(_time.time() - t1, 1)
+        t1 = _time.time()
+        closure_stream(ctx, wd, decorated, n_sets, worker, input_seeds, int((12 if quick else 120) * scale), stats)
+        phases["enclosing_scope_stream_s"] = round(_time.time() - t1, 1)
         t1 = _time.time()
         c01_eager.correspond(ctx, collector, flagged_progs)
         phases["eager_trace_correspondence_s"] = round(_time.time() - t1, 1)
